@@ -55,6 +55,11 @@ def build_cases(tier, seed):
         cs.append((c3, ((x, 1), (v1, 1), (v2, 1))))
         cs.append((c3, ((v1, 1), (x, 1), (v2, 1))))
         cs.append((c3, ((v1, 1), (v2, 1), (x, 1))))
+    # exact ties that exist only in exact arithmetic: 1/10 + 1/5 against 3/10 (weights and scores)
+    for perm in itertools.permutations(((((c3[0], 1),), F(1, 10)), (((c3[0], 1),), F(1, 5)), (((c3[1], 1),), F(3, 10)))):
+        cs.append((c3, perm))
+    for perm in itertools.permutations(((((c3[0], F(1, 10)),), 1), (((c3[0], F(1, 5)),), 1), (((c3[2], F(3, 10)),), 1))):
+        cs.append((c3, perm))
     # a ballot that carries a ranking but no scores, among scored ones
     cs.append((c3, (("RANKED", 1), (v1, 1))))
     cs.append((c3, ((v1, 1), ("RANKED", 1))))
